@@ -11,7 +11,7 @@ PROPS = {}
 
 PROPS['C16'] = dict(
     level='model_checking',
-    encoded=['ParameterConfig.factory', 'ParameterConfig.contains', 'ParameterConfig._assert_feasible',
+    encoded=['ParameterConfig.factory', 'SearchSpaceSelector.add_*_param/select_values', 'ParameterConfig.subspace', 'SequentialParameterBuilder', 'clients.Study.add_trial', 'ParameterConfig.contains', 'ParameterConfig._assert_feasible',
              'ParameterType.assert_correct_type', 'ParameterValue.as_float/as_int/as_str',
              'SearchSpace.contains', 'SearchSpace.assert_contains'],
     bounds='bounds/candidates: all ints, all reals (+nan/inf); feasible lists <= 3; strings <= 2 chars',
@@ -26,12 +26,34 @@ PROPS['C16'] = dict(
           'INTEGER: contains(int v) <=> lo <= v <= hi for all ints'),
         O('C16.contains_integer_float', 'harness.c16_contains', 'contains_integer_float', 60, 300,
           'INTEGER: float candidate accepted iff integral and within bounds; nan/inf -> False (a bool, no exception)'),
-        O('C16.contains_discrete', 'harness.c16_contains', 'contains_discrete', 120, 600,
+        O('C16.contains_discrete', 'harness.c16_contains', 'contains_discrete', 300, 900,
           'DISCRETE: factory sorts/uniquifies, contains <=> member', 'n<=3 feasible values, all reals'),
-        O('C16.contains_categorical', 'harness.c16_contains', 'contains_categorical', 120, 600,
+        O('C16.contains_categorical', 'harness.c16_contains', 'contains_categorical', 300, 900,
           'CATEGORICAL: contains <=> member', 'n<=3 categories, strings <= 2 chars'),
         O('C16.contains_wrong_kind', 'harness.c16_contains', 'contains_wrong_kind', 120, 600,
           'type-incompatible candidates are rejected (False)'),
+        O('C16.factory_bounds', 'harness.c16_validation', 'factory_bounds', 90, 300,
+          'bounds definitions: rejected iff non-finite, reversed or mixed int/float; type inferred'),
+        O('C16.factory_feasible_numeric2', 'harness.c16_validation', 'factory_feasible_numeric2', 200, None,
+          'numeric feasible values (1..2, all reals/nan/inf): rejected iff non-finite / empty name; else sorted, unique'),
+        O('C16.factory_feasible_numeric3', 'harness.c16_validation', 'factory_feasible_numeric', None, 2400,
+          'numeric feasible values (1..3, all reals/nan/inf): rejected iff non-finite / empty name; otherwise sorted, '
+          'unique, DISCRETE, bounds = (min, max)'),
+        O('C16.factory_feasible_strings', 'harness.c16_validation', 'factory_feasible_strings', 300, 900,
+          'string feasible values: rejected iff mixed with numbers / empty name; otherwise sorted, CATEGORICAL'),
+        O('C16.factory_feasible_duplicates', 'harness.c16_validation', 'factory_feasible_duplicates', 60, 300,
+          'duplicate feasible values (also 2 vs 2.0) are rejected', '5 concrete duplicate lists'),
+        O('C16.children_rules', 'harness.c16_validation', 'children_rules', 60, 300,
+          'children: never under a continuous parameter (even with coinciding bounds), only under feasible parent values, '
+          'no duplicate names in one subspace'),
+        O('C16.traversal', 'harness.c16_validation', 'traversal', 90, 300,
+          'SequentialParameterBuilder (dfs/bfs) visits exactly the parameters active under the values chosen so far, once '
+          'each, on conditional spaces up to depth 3; contains() on a conditional space raises NotImplementedError'),
+        O('C16.space_membership', 'harness.c16_validation', 'space_membership', 90, 300,
+          'SearchSpace.contains: every parameter present once, in domain, nothing else'),
+        O('C16.client_add_trial', 'harness.c16_validation', 'client_add_trial', 90, 300,
+          'clients.Study.add_trial refuses (and does not store) out-of-space trials, also after the study was deleted and '
+          're-created under the same name with another space'),
     ])
 
 PROPS['C10'] = dict(
